@@ -41,7 +41,9 @@ CONFIGS = {
     "cluster6": ("Cluster6", 2, 12),   # 729 bags, tight clusters far apart
     "lattice9": ("Lattice9", 1, 9),    # 512 bags, L1 ties
 }
-DEEP_COMBOS = [(s, p) for s in ("gnat", "gnat-nts") for p in ("2-2-4-2-2-on", "3-2-5-1-500-off")]
+DEEP_COMBOS = [("gnat", "2-2-4-2-2-on"), ("gnat-nts", "3-2-5-1-500-off")]
+# parameter sets with degree > maxNumPtsPerLeaf and a removal cache of at least 2 (see D5)
+CACHE_RELATION = {"4-2-6-2-3-off", "3-2-5-1-500-off", "6-4-8-2-4-on"}
 ACTIONS = {"Add", "AddMany", "Remove", "RemoveAbsent", "Clear"}
 INVARIANTS = ("TypeOK Canonical KSorted KLen KPrefix RPrefixOfK RMonotone RBounded NearestIsK1 ApproxWeaker "
               "SizeAgrees KSubBag RAnswerAgrees ListAgrees")
@@ -269,8 +271,8 @@ def _plan(tier):
         rec = (24, 1000)
         mc = [("line4", True), ("dup2", True), ("cluster6", False), ("lattice9", True)]
         # where the tree is busiest (DEEP_COMBOS): depth 8 over the 4-point graph (25.9 million
-        # histories per combination, in 8 shards) and depth 6 over the cluster and lattice graphs
-        deep = [("line4", 8, 8), ("cluster6", 6, 4), ("lattice9", 6, 4)]
+        # histories per combination, in 16 shards) and depth 6 over the cluster and lattice graphs
+        deep = [("line4", 8, 16), ("cluster6", 6, 6), ("lattice9", 6, 6)]
     return ex, rnd, rec, mc, deep
 
 
@@ -361,9 +363,11 @@ def run(tier):
         ops = " ; ".join("%s %s" % (s["a"], json.dumps(s["args"], separators=(",", ":"))) for s in first["scenario"])
         ck.violation(key, "%d specification histories fail on %s with parameters %s; shortest: [%s] -> %s"
                      % (f["count"], first["structure"], first["params"], ops, first["why"]), rp)
-    if not agg.fails and not agg.crashes:
-        ck.sample({"kind": "replayed contract graphs", "graphs": {c: ck.cov.get("graph_" + c) for c in CONFIGS},
-                   "exhaustive_paths": agg.exhaustive})
+    ck.sample({"kind": "replayed contract graphs", "graphs": {c: ck.cov.get("graph_" + c) for c in CONFIGS},
+               "exhaustive_paths": agg.exhaustive, "failing_keys": sorted(agg.fails)})
+    for key in sorted(agg.fails)[:2]:
+        ck.sample({"kind": "shortest failing history", "key": key, "count": agg.fails[key]["count"],
+                   "history": agg.fails[key]["first"]["scenario"], "why": agg.fails[key]["first"]["why"]})
 
     # ---- verdicts: traces
     for info in sorted(results, key=lambda r: (r["structure"], r["params"])):
@@ -387,6 +391,8 @@ def run(tier):
             if ev.get("e") == "Reset":
                 x = ev.get("x", x + 1)
         tainted = info["rec"] and any(t["x"] == x and t["line"] <= line for t in info["rec"]["tainted"])
+        if not have_probe and info["structure"].startswith("gnat") and info["params"] in CACHE_RELATION:
+            tainted = True      # without the probe the parameter relation is all there is to go by
         if bad.get("e") == "Crash" or info["crashed"]:
             ck.violation("record-crash:" + label, "%s crashed / sanitizer abort under a random history at event %d: %s"
                          % (label, line, info["stderr"][-600:]), rp)
